@@ -60,6 +60,8 @@ def Op.admissible (cfg : Config) (w : World) : Op → Prop
   | .add i e => cfg.addInvalidates = true ∧
       (cfg.overrideDetaches = true ∨ findElt (eltsOf w i) e.name = none)
   | .addRaw _ _ => False
+  | .addLines i es => cfg.addMultiInvalidates = true ∧
+      (cfg.overrideDetaches = true ∨ (uniqueNames es ∧ ∀ e ∈ es, findElt (eltsOf w i) e.name = none))
   | .remove _ _ => cfg.removeInvalidates = true
   | .query _ _ => True
   | .derive _ _ es => uniqueNames es
